@@ -1,4 +1,5 @@
 import SqlObjVerif.Model.Lex
+import SqlObjVerif.Model.Like
 import SqlObjVerif.Model.DrvUtil
 /-! Driver for C02.  Strings travel as `.`-joined hex code points (`-` = empty).
 Requests:
@@ -9,8 +10,9 @@ Requests:
 * `ins <dialect> <table> <name,name> <val>*`   → `<sql> | <tokens>`
 * `upd <dialect> <table> <idName> <idval> (<name> <val>)*`
 * `whr <dialect> (<name> <val>)*`
+* `like <dialect> <op> <arg hex>`            → `<clause> | <tokens>` of `(t.c LIKE (<pattern>) ESCAPE <esc>)`
 * `t <dialect> <hex>`                      → `<tokens>` of an arbitrary text
-Values: `S:<hex>` `I:<int>` `B:0|1` `N` `D:y-m-d` `T:h-m-s-us` `DT:y-m-d-h-m-s-us` `F:<neg>:<mant>:<sign>:<exp>` `L( … )`. -/
+Values: `S:<hex>` `I:<int>` `OI:<int>` `OS:<hex>` (SQLObject instance with int / str id) `B:0|1` `N` `D:y-m-d` `T:h-m-s-us` `DT:y-m-d-h-m-s-us` `F:<neg>:<mant>:<sign>:<exp>` `L( … )`. -/
 open SqlObjVerif SqlObjVerif.Lex SqlObjVerif.DrvUtil
 
 def dialect? : String → Option Dialect
@@ -45,6 +47,8 @@ partial def parseVal : List String → Option (Val × List String)
         | some mant, some [sg], some e => some (.num (neg == "1") mant (some (sg, e)), rest)
         | _, _, _ => none
       | _ => none
+    else if t.startsWith "OI:" then ((t.drop 3).toString.toInt?).map fun i => (.instInt i, rest)
+    else if t.startsWith "OS:" then (decodeCps? (t.drop 3).toString).map fun s => (.instStr s, rest)
     else if t.startsWith "I:" then ((t.drop 2).toString.toInt?).map fun i => (.int i, rest)
     else if t.startsWith "B:" then some (.bool ((t.drop 2).toString == "1"), rest)
     else if t.startsWith "DT:" then
@@ -107,6 +111,13 @@ def handle (line : String) : String :=
       | "q", [h] => match decodeCps? h with
         | some s => encodeCps (quoteStr d s)
         | none => "bad"
+      | "like", [o, h] =>
+        let op? : Option LikeOp := match o with
+          | "startswith" => some Extracted.startswithOp | "endswith" => some Extracted.endswithOp
+          | "contains" => some Extracted.containsOp | _ => none
+        match op?, decodeCps? h with
+        | some op, some a => let q := Like.likeClause d op [116, 46, 99] a; encodeCps q ++ " | " ++ showToks (tokens d q)
+        | _, _ => "bad"
       | "t", [h] => match decodeCps? h with
         | some s => showToks (tokens d s)
         | none => "bad"
